@@ -19,6 +19,9 @@ along with the GNU MP Library; see the file COPYING.LIB.  If not, write to
 the Free Software Foundation, Inc., 51 Franklin Street, Fifth Floor, Boston,
 MA 02110-1301, USA. */
 
+#include <stdio.h>
+#include <stdlib.h>
+#include <limits.h>
 #include "mpir.h"
 #include "gmp-impl.h"
 
@@ -26,6 +29,14 @@ void *
 _mpz_realloc (mpz_ptr m, mp_size_t new_alloc)
 {
   mp_ptr mp;
+
+  /* _mp_alloc and _mp_size are ints: a larger count cannot be recorded, and
+     storing it would leave a negative allocation and size behind */
+  if (UNLIKELY (new_alloc > INT_MAX))
+    {
+      fprintf (stderr, "gmp: overflow in mpz type\n");
+      abort ();
+    }
 
   /* Never allocate zero space. */
   new_alloc = MAX (new_alloc, 1);
